@@ -641,6 +641,71 @@ impl Session {
     }
 }
 
+// the interpreter's closures and environments form Rc cycles (a library environment holds the library's procedures,
+// which hold the environment), so a dropped interpreter leaks about 160 KB; over hundreds of thousands of cases
+// that exhausts memory. When a session ends, every environment reachable from the root frame through procedure
+// values is emptied, which breaks those cycles.
+fn collect_envs(v: &Value<f32>, out: &mut Vec<Rc<ruschm::environment::Environment<f32>>>, depth: usize) {
+    if depth > 64 {
+        return;
+    }
+    match v {
+        Value::Procedure(Procedure::User(_, env)) => out.push(env.clone()),
+        Value::Pair(p) => {
+            for item in p.iter() {
+                collect_envs(item, out, depth + 1);
+            }
+            if let Some(tail) = p.last_cdr() {
+                collect_envs(tail, out, depth + 1);
+            }
+        }
+        Value::Vector(r) => {
+            let items: Vec<Value<f32>> = match r {
+                ValueReference::Immutable(rc) => rc.iter().cloned().collect(),
+                ValueReference::Mutable(rc) => match rc.try_borrow() {
+                    Ok(b) => b.iter().cloned().collect(),
+                    Err(_) => vec![],
+                },
+            };
+            for item in &items {
+                collect_envs(item, out, depth + 1);
+            }
+        }
+        _ => {}
+    }
+}
+
+pub fn scrub_environment(root: &Rc<ruschm::environment::Environment<f32>>) {
+    let mut seen: Vec<*const ruschm::environment::Environment<f32>> = vec![];
+    let mut queue = vec![root.clone()];
+    while let Some(env) = queue.pop() {
+        let ptr = Rc::as_ptr(&env);
+        if seen.contains(&ptr) {
+            continue;
+        }
+        seen.push(ptr);
+        let mut names = vec![];
+        {
+            let mut defs = env.iter_local_definitions();
+            for (k, v) in &mut *defs {
+                names.push(k.clone());
+                collect_envs(v, &mut queue, 0);
+            }
+        }
+        for n in names {
+            env.define(n, Value::Void);
+        }
+    }
+}
+
+impl Drop for Session {
+    fn drop(&mut self) {
+        // (no `guarded` here: sessions kept in thread-locals are dropped while thread-local storage is being destroyed)
+        let env = self.it.env.clone();
+        let _ = catch_unwind(AssertUnwindSafe(|| scrub_environment(&env)));
+    }
+}
+
 /// Evaluate forms one by one on one fresh std-lib interpreter (with host procedures), in a
 /// fresh thread; returns per-form outcome and the tick trace produced by that form.
 pub fn run_forms(forms: Vec<String>, budget: Option<Budget>) -> Vec<(Outcome, Vec<i32>)> {
